@@ -21,7 +21,8 @@ PacketKinds == {"sr", "rr", "sdes", "bye", "app", "tfb", "pfb"}
 
 PTOf(kind) == CASE kind = "sr" -> 200 [] kind = "rr" -> 201 [] kind = "sdes" -> 202
                 [] kind = "bye" -> 203 [] kind = "app" -> 204 [] kind = "tfb" -> 205
-                [] kind = "pfb" -> 206 [] OTHER -> -1
+                [] kind = "pfb" -> 206 [] kind = "rb" -> -2 [] OTHER -> -1
+\* -1: a parser with a common header but no packet type of its own (unknown, generic); -2: no header at all
 
 \* which variant the generic parser must select for packet type byte pt (C12)
 Variant(pt) == CASE pt = 200 -> "sr" [] pt = 201 -> "rr" [] pt = 202 -> "sdes"
@@ -88,7 +89,7 @@ Truthful(own, b, err) ==
     CASE err.e = "UnsupportedVersion" ->
             Len(b) >= 1 /\ err.f = << Version(b) >> /\ Version(b) # 2
       [] err.e = "PacketTypeMismatch" ->
-            Len(b) >= 2 /\ own # -1 /\ err.f = << PType(b), own >> /\ PType(b) # own
+            Len(b) >= 2 /\ own >= 0 /\ err.f = << PType(b), own >> /\ PType(b) # own
       [] err.e = "Truncated" -> err.f[1] > err.f[2]
       [] err.e = "TooLarge"  -> err.f[1] < err.f[2]
       [] OTHER -> TRUE
@@ -96,7 +97,7 @@ Truthful(own, b, err) ==
 \* the mandated errors: {} when the statement mandates nothing specific
 MandatedErr(min, own, b) ==
     IF Len(b) < min THEN { Err("Truncated", << min, Len(b) >>) }
-    ELSE IF Len(b) >= 4 /\ Version(b) = 2 /\ (own = -1 \/ PType(b) = own) /\ HdrLen(b) # Len(b)
+    ELSE IF own # -2 /\ Len(b) >= 4 /\ Version(b) = 2 /\ (own = -1 \/ PType(b) = own) /\ HdrLen(b) # Len(b)
          THEN { Err(IF HdrLen(b) > Len(b) THEN "Truncated" ELSE "TooLarge", << HdrLen(b), Len(b) >>) }
     ELSE {}
 
@@ -451,5 +452,20 @@ TilesFrom(b, off, acc) ==
              ELSE TilesFrom(b, off + n, Append(acc, << off, n >>))
 Tiling(b) == TilesFrom(b, 0, <<>>)
 CompoundAccepts(b) == b # <<>> /\ Tiling(b).ok
+
+\* The chain of length fields is deterministic, so a tiling can also be CHECKED in one pass: h is
+\* Tiling(b) iff its tiles follow the chain from offset 0 and it stops exactly where the chain stops.
+\* Used for very long inputs, where a generator supplies h as a hint (validated here, never trusted).
+IsTilingWitness(b, h) ==
+    LET t   == h.tiles
+        n   == Len(t)
+        end == IF n = 0 THEN 0 ELSE t[n][1] + t[n][2]
+    IN  /\ \A i \in 1..n :
+              /\ t[i][1] = (IF i = 1 THEN 0 ELSE t[i - 1][1] + t[i - 1][2])
+              /\ t[i][1] + 4 <= Len(b)
+              /\ t[i][2] = 4 * (U16At(b, t[i][1] + 3) + 1)
+              /\ t[i][1] + t[i][2] <= Len(b)
+        /\ IF h.ok THEN end = Len(b)
+           ELSE end < Len(b) /\ (Len(b) < end + 4 \/ end + 4 * (U16At(b, end + 3) + 1) > Len(b))
 
 =============================================================================
